@@ -174,6 +174,13 @@ fn small_input(src: Fmt, variant: usize) -> Vec<u8> {
 /// medium) input only after the read end of stdout has been closed, so whatever
 /// xt writes - during translation or in its final flush - meets a closed pipe.
 pub fn judge_consumer_gone_first(src: Fmt, detect: bool, to: Fmt, size: &'static str, variant: usize, acc: &mut Acc) {
+    judge_consumer_gone_env(src, detect, to, size, variant, procmon::SigEnv::Default, acc)
+}
+
+/// The same with the SIGPIPE disposition the process inherits chosen by the caller: ignored (xt resets
+/// it and still dies from SIGPIPE, silently) or blocked in the signal mask (raising it cannot terminate
+/// the process: the remaining promise is silence and a failure status - never a panic, never status 0).
+pub fn judge_consumer_gone_env(src: Fmt, detect: bool, to: Fmt, size: &'static str, variant: usize, env: procmon::SigEnv, acc: &mut Acc) {
     let data = match size {
         "small" => small_input(src, variant),
         _ => match big_input(src, 40 << 10, true) {
@@ -198,21 +205,35 @@ pub fn judge_consumer_gone_first(src: Fmt, detect: bool, to: Fmt, size: &'static
     }
     let bin = procmon::release_bin();
     let mk = || Run { bin: &bin, argv: argv.clone(), cwd: sc.path(), stdin: StdinKind::BytesAfterConsumerLeft(data.clone()), stdout: StdoutKind::CloseAfter(0), wall_secs: 120, cpu_secs: 60 };
-    let mut out = procmon::run(mk());
+    let mut out = if env == procmon::SigEnv::Default { procmon::run(mk()) } else { procmon::run_sig(mk(), env) };
     if out.status == Status::Exit(0) {
         acc.count("exit_0_observations_confirmed_under_exclusion");
-        out = procmon::run_exclusive(mk());
+        out = if env == procmon::SigEnv::Default { procmon::run_exclusive(mk()) } else { procmon::run_sig_exclusive(mk(), env) };
     }
     acc.count("consumer_gone_first_runs");
     acc.count(&format!("consumer_gone_first_{}{}_{}", src.name(), if detect { "_detected" } else { "" }, size));
+    if env != procmon::SigEnv::Default {
+        acc.count(&format!("consumer_gone_with_sigpipe_{}", if env == procmon::SigEnv::PipeIgnored { "ignored" } else { "blocked" }));
+    }
     if matches!(out.status, Status::Timeout | Status::SpawnError(_)) {
         acc.inconclusive += 1;
+        return;
+    }
+    if env == procmon::SigEnv::PipeBlocked {
+        // the signal cannot terminate the process: silence and a failure status are what is left of the promise
+        if matches!(out.status, Status::Exit(c) if c != 0) && out.stderr.is_empty() {
+            acc.count("sigpipe_blocked_silent_failure_status");
+        } else if out.status == Status::Signal(libc::SIGPIPE) && out.stderr.is_empty() {
+            acc.count("killed_by_sigpipe_silently");
+        } else {
+            acc.violation(Violation { sig: format!("consumer gone, SIGPIPE blocked in the inherited mask, {}{}->{} {}: {}", src.name(), if detect { "(detected)" } else { "" }, to.name(), size, out.status.show()), case: json!({"consumer_gone_first": true, "sig_env": "blocked", "source": src.name(), "detect": detect, "to": to.name(), "size": size, "variant": variant}), observed: format!("status {}, stderr [{}]", out.status.show(), preview(&out.stderr, 200)), expected: "a failure status (or death by SIGPIPE) with nothing on stderr - no panic, no message, not status 0".into() });
+        }
         return;
     }
     if out.status == Status::Signal(libc::SIGPIPE) && out.stderr.is_empty() {
         acc.count("killed_by_sigpipe_silently");
     } else {
-        acc.violation(Violation { sig: format!("consumer gone before the input arrived {}{}->{} {}: {}", src.name(), if detect { "(detected)" } else { "" }, to.name(), size, out.status.show()), case: json!({"consumer_gone_first": true, "source": src.name(), "detect": detect, "to": to.name(), "size": size, "variant": variant}), observed: format!("status {}, stderr [{}]", out.status.show(), preview(&out.stderr, 200)), expected: "killed by SIGPIPE with nothing on stderr (never exit status 0 with output missing)".into() });
+        acc.violation(Violation { sig: format!("consumer gone before the input arrived {}{}->{} {}: {}", src.name(), if detect { "(detected)" } else { "" }, to.name(), size, out.status.show()), case: json!({"consumer_gone_first": true, "sig_env": if env == procmon::SigEnv::PipeIgnored { "ignored" } else { "default" }, "source": src.name(), "detect": detect, "to": to.name(), "size": size, "variant": variant}), observed: format!("status {}, stderr [{}]", out.status.show(), preview(&out.stderr, 200)), expected: "killed by SIGPIPE with nothing on stderr (never exit status 0 with output missing)".into() });
     }
 }
 
@@ -253,14 +274,14 @@ pub fn judge_failing_sink(src: Fmt, detect: bool, to: Fmt, size: &'static str, v
         sc.file(&n, &data);
         argv.push(n);
     }
-    let limit = if sink == 1 { 0u64 } else { 10_000 };
+    let limit = if sink == 1 { 0u64 } else if sink == 3 { u64::MAX } else { 10_000 };
     if sink == 2 && probe.out.len() as u64 <= limit {
         acc.count("skipped_output_fits_under_the_file_size_limit");
         acc.evals -= 1;
         return;
     }
-    let out = procmon::run(Run { bin: &procmon::release_bin(), argv, cwd: sc.path(), stdin, stdout: if sink == 0 { StdoutKind::DevFull } else { StdoutKind::FileLimited(limit) }, wall_secs: 60, cpu_secs: 30 });
-    let label = if sink == 0 { "dev_full" } else { "limited_regular_file" };
+    let out = procmon::run(Run { bin: &procmon::release_bin(), argv, cwd: sc.path(), stdin, stdout: if sink == 0 { StdoutKind::DevFull } else if sink == 3 { StdoutKind::FullNonBlockingPipe } else { StdoutKind::FileLimited(limit) }, wall_secs: 60, cpu_secs: 30 });
+    let label = if sink == 0 { "dev_full" } else if sink == 3 { "full_nonblocking_pipe" } else { "limited_regular_file" };
     acc.count(&format!("{label}_runs"));
     acc.count(&format!("{label}_{}{}_{}_{}", src.name(), if detect { "_detected" } else { "" }, size, if variant % 2 == 0 { "stdin" } else { "file" }));
     if matches!(out.status, Status::Timeout | Status::SpawnError(_)) {
@@ -269,7 +290,7 @@ pub fn judge_failing_sink(src: Fmt, detect: bool, to: Fmt, size: &'static str, v
     }
     let err = String::from_utf8_lossy(&out.stderr);
     if out.status != Status::Exit(1) || !err.starts_with("xt error") {
-        acc.violation(Violation { sig: format!("{} {}{}->{} {} {}: {}", if sink == 0 { "/dev/full" } else { "regular file that cannot grow" }, src.name(), if detect { "(detected)" } else { "" }, to.name(), size, if variant % 2 == 0 { "stdin" } else { "file" }, out.status.show()), case: json!({"devfull_matrix": true, "sink": sink, "source": src.name(), "detect": detect, "to": to.name(), "size": size, "variant": variant}), observed: format!("status {}, stderr [{}], {} bytes reached the file", out.status.show(), preview(&out.stderr, 200), out.stdout.len()), expected: "exit 1 and a message beginning 'xt error'".into() });
+        acc.violation(Violation { sig: format!("{} {}{}->{} {} {}: {}", if sink == 0 { "/dev/full" } else if sink == 3 { "full non-blocking pipe" } else { "regular file that cannot grow" }, src.name(), if detect { "(detected)" } else { "" }, to.name(), size, if variant % 2 == 0 { "stdin" } else { "file" }, out.status.show()), case: json!({"devfull_matrix": true, "sink": sink, "source": src.name(), "detect": detect, "to": to.name(), "size": size, "variant": variant}), observed: format!("status {}, stderr [{}], {} bytes reached the file", out.status.show(), preview(&out.stderr, 200), out.stdout.len()), expected: "exit 1 and a message beginning 'xt error'".into() });
     } else {
         acc.count(&format!("{label}_status_1_with_message"));
         if sink != 0 && out.stdout.len() as u64 > limit {
@@ -509,6 +530,8 @@ pub fn run(ctx: &Ctx) -> i32 {
         judge_consumer_gone_first(src, detect, to, size, variant, acc);
         judge_devfull_stdin(src, detect, to, size, variant, acc);
         judge_failing_sink(src, detect, to, size, variant, 1 + (variant as u64 + size.len() as u64) % 2, acc);
+        judge_failing_sink(src, detect, to, size, variant, 3, acc);
+        judge_consumer_gone_env(src, detect, to, size, variant, if (variant + src as usize + to as usize) % 2 == 0 { procmon::SigEnv::PipeIgnored } else { procmon::SigEnv::PipeBlocked }, acc);
     });
     acc.merge(m_acc);
     let mut align = vec![];
@@ -552,9 +575,9 @@ pub fn run(ctx: &Ctx) -> i32 {
             judge_late_small_input(to, k, first, &mut acc);
         }
     }
-    let rule = format!("{} closing-pipe runs: the consumer takes exactly k bytes for k in {:?} and closes while more than 1 MiB of output remains, x 4 targets x input layouts (one 3 MiB file, 3 MiB on stdin, ten 400 KiB files so that the failure is also met in the per-input flush), single-table and multi-document inputs, JSON input named explicitly for every case plus (quick) one rotating or (thorough) every other choice of source format JSON/YAML/MessagePack/TOML, named or detected; a matrix source x named/detected x target x small/40 KiB input in which the consumer is gone before stdin delivers anything (failure met in the final flush for small outputs) and the same matrix with stdout on /dev/full (stdin and file) and with stdout on a REGULAR FILE that may not grow (RLIMIT_FSIZE 0 or 10 000 bytes with SIGXFSZ ignored: write(2) fails with EFBIG, like a full file system); /dev/full runs whose output is a long run of one-byte values and separators shifted by 0..5 (thorough: 0..63) bytes, so that the first failing write lands on every kind of token; a zero-length file (one empty TOML table) on /dev/full; FIFO operands (source x named/detected x target) on /dev/full and with the consumer gone before the FIFO delivers; plus 16 runs with stdout on /dev/full (outputs below and above the 8 KiB buffer) and 15 runs in which the consumer leaves after the first input's output and a second, small input arrives only afterwards (failure met in the per-input flush); distinct non-trivial = distinct (target, k, layout) cases", cs.len(), KS);
+    let rule = format!("{} closing-pipe runs: the consumer takes exactly k bytes for k in {:?} and closes while more than 1 MiB of output remains, x 4 targets x input layouts (one 3 MiB file, 3 MiB on stdin, ten 400 KiB files so that the failure is also met in the per-input flush), single-table and multi-document inputs, JSON input named explicitly for every case plus (quick) one rotating or (thorough) every other choice of source format JSON/YAML/MessagePack/TOML, named or detected; a matrix source x named/detected x target x small/40 KiB input in which the consumer is gone before stdin delivers anything (failure met in the final flush for small outputs) and the same matrix with stdout on /dev/full (stdin and file) and with stdout on a REGULAR FILE that may not grow (RLIMIT_FSIZE 0 or 10 000 bytes with SIGXFSZ ignored: write(2) fails with EFBIG, like a full file system) and on a full pipe in non-blocking mode (EAGAIN); the consumer-gone matrix once more with SIGPIPE inherited as ignored (xt must still die from it, silently) or blocked in the signal mask (it cannot terminate: a silent failure status, never a panic or status 0); /dev/full runs whose output is a long run of one-byte values and separators shifted by 0..5 (thorough: 0..63) bytes, so that the first failing write lands on every kind of token; a zero-length file (one empty TOML table) on /dev/full; FIFO operands (source x named/detected x target) on /dev/full and with the consumer gone before the FIFO delivers; plus 16 runs with stdout on /dev/full (outputs below and above the 8 KiB buffer) and 15 runs in which the consumer leaves after the first input's output and a second, small input arrives only afterwards (failure met in the per-input flush); distinct non-trivial = distinct (target, k, layout) cases", cs.len(), KS);
     ev::finish(
-        Finish { ctx, level: "fault_enumeration", rule, assumptions: vec!["the kernel's pipe semantics: a write to a pipe whose read end is closed fails with EPIPE".into(), "a run in which the consumer could not obtain k bytes is inconclusive, not a violation".into(), "an 'exit 0 although the consumer had left' observation is confirmed by one more run during which no other process is spawned (a concurrently spawned child briefly holds a copy of the read end)".into()], extra: serde_json::Map::new(), exhaustive: false, min_distinct: 40, must_reach: vec![("killed_by_sigpipe_silently".into(), 40), ("dev_full_runs".into(), 16), ("dev_full_status_1_with_message".into(), 100), ("limited_regular_file_status_1_with_message".into(), 60), ("consumer_gone_first_runs".into(), 100), ("dev_full_alignment_runs".into(), 50), ("dev_full_zero_length_file_runs".into(), 6), ("fifo_input_dev_full_runs".into(), 20), ("fifo_input_consumer_gone_runs".into(), 20), ("source_yaml_detected".into(), 3), ("source_msgpack".into(), 3), ("late_small_input_runs".into(), 15), ("layout_many_files".into(), 5), ("layout_stdin".into(), 5)] },
+        Finish { ctx, level: "fault_enumeration", rule, assumptions: vec!["the kernel's pipe semantics: a write to a pipe whose read end is closed fails with EPIPE".into(), "a run in which the consumer could not obtain k bytes is inconclusive, not a violation".into(), "an 'exit 0 although the consumer had left' observation is confirmed by one more run during which no other process is spawned (a concurrently spawned child briefly holds a copy of the read end)".into()], extra: serde_json::Map::new(), exhaustive: false, min_distinct: 40, must_reach: vec![("killed_by_sigpipe_silently".into(), 40), ("dev_full_runs".into(), 16), ("dev_full_status_1_with_message".into(), 100), ("limited_regular_file_status_1_with_message".into(), 60), ("full_nonblocking_pipe_status_1_with_message".into(), 60), ("consumer_gone_with_sigpipe_ignored".into(), 30), ("sigpipe_blocked_silent_failure_status".into(), 30), ("consumer_gone_first_runs".into(), 100), ("dev_full_alignment_runs".into(), 50), ("dev_full_zero_length_file_runs".into(), 6), ("fifo_input_dev_full_runs".into(), 20), ("fifo_input_consumer_gone_runs".into(), 20), ("source_yaml_detected".into(), 3), ("source_msgpack".into(), 3), ("late_small_input_runs".into(), 15), ("layout_many_files".into(), 5), ("layout_stdin".into(), 5)] },
         acc,
     )
 }
@@ -576,7 +599,12 @@ pub fn replay(v: &Value) -> i32 {
         let size: &'static str = if c["size"].as_str() == Some("small") { "small" } else { "medium" };
         let (detect, variant) = (c["detect"].as_bool().unwrap_or(false), c["variant"].as_u64().unwrap_or(0) as usize);
         if c["consumer_gone_first"].as_bool() == Some(true) {
-            judge_consumer_gone_first(src, detect, to, size, variant, &mut acc);
+            let env = match c["sig_env"].as_str() {
+                Some("blocked") => procmon::SigEnv::PipeBlocked,
+                Some("ignored") => procmon::SigEnv::PipeIgnored,
+                _ => procmon::SigEnv::Default,
+            };
+            judge_consumer_gone_env(src, detect, to, size, variant, env, &mut acc);
         } else {
             judge_failing_sink(src, detect, to, size, variant, c["sink"].as_u64().unwrap_or(0), &mut acc);
         }
